@@ -219,7 +219,7 @@ func genC16Chain(rt *rapid.T, exclReReg bool) *c16Chain {
 	}
 	// placements: side 'P' for n<=f, else 'A' and/or 'B'
 	items := map[string][]c16Item{}
-	place := func(l string, n uint64, it c16Item) {
+	place := func(l string, n uint64, it c16Item, sides []string) {
 		if n < 1 || n > maxN {
 			return
 		}
@@ -228,7 +228,7 @@ func genC16Chain(rt *rapid.T, exclReReg bool) *c16Chain {
 			items[k] = append(items[k], it)
 			return
 		}
-		side := rapid.SampledFrom([]string{"A", "B", "B", "AB"}).Draw(rt, l+"side")
+		side := rapid.SampledFrom(sides).Draw(rt, l+"side")
 		if !c.fork {
 			side = "B"
 		}
@@ -241,7 +241,7 @@ func genC16Chain(rt *rapid.T, exclReReg bool) *c16Chain {
 		}
 	}
 	var desc []string
-	ttls := []uint64{0, 1, 2, 3, 6, 12, 40}
+	ttls := []uint64{0, 1, 1, 2, 3, 6, 6, 12, 40}
 	for i := range c.trig {
 		t := c.trig[i]
 		l := fmt.Sprintf("t%d", i)
@@ -270,7 +270,7 @@ func genC16Chain(rt *rapid.T, exclReReg bool) *c16Chain {
 			place(fmt.Sprintf("%sreg%d", l, j), r, c16Item{order: 10, desc: fmt.Sprintf("reg(t%d,ttl=%d)", i, ttl), mk: func(st *branchState, num uint64) scriptLog {
 				s, e := mkTriggerEvent(st, num, tt.eon, tt.prefix, tt.sender, tt.bytes, tt.valid, ttl)
 				return scriptLog{s, e}
-			}})
+			}}, []string{"A", "B", "B", "B", "AB"})
 			desc = append(desc, fmt.Sprintf("t%d@%d+%d", i, r, ttl))
 		}
 		if len(regs) == 0 {
@@ -283,7 +283,13 @@ func genC16Chain(rt *rapid.T, exclReReg bool) *c16Chain {
 			r, e := reg[0], reg[1]
 			var n uint64
 			order := 20
-			switch rapid.SampledFrom([]string{"before", "same-before", "same-after", "next", "next2", "mid", "pre-expiry", "at-expiry", "after-expiry", "after-expiry2", "anywhere"}).Draw(rt, ll+"offset") {
+			offsets := []string{"before", "same-before", "same-after", "next", "next2", "mid", "pre-expiry", "at-expiry", "after-expiry", "after-expiry2", "anywhere"}
+			sides := []string{"A", "B", "B", "AB"}
+			if j == 0 && rapid.IntRange(0, 9).Draw(rt, ll+"inLifetime") < 7 {
+				offsets = []string{"next", "next2", "mid", "pre-expiry", "at-expiry", "at-expiry"}
+				sides = []string{"B", "B", "AB"}
+			}
+			switch rapid.SampledFrom(offsets).Draw(rt, ll+"offset") {
 			case "before":
 				n = r - 1
 			case "same-before":
@@ -307,9 +313,9 @@ func genC16Chain(rt *rapid.T, exclReReg bool) *c16Chain {
 			default:
 				n = uint64(rapid.IntRange(1, int(maxN)).Draw(rt, ll+"n"))
 			}
-			want := rapid.IntRange(0, 9).Draw(rt, ll+"want") < 7
+			want := rapid.IntRange(0, 9).Draw(rt, ll+"want") < 7 || (j == 0 && rapid.Bool().Draw(rt, ll+"want0"))
 			spec := genLogFor(rt, ll, &t.def, want)
-			place(ll, n, c16Item{order: order, desc: fmt.Sprintf("log(t%d,%v)", i, want), mk: func(*branchState, uint64) scriptLog { return scriptLog{spec, &refEvent{}} }})
+			place(ll, n, c16Item{order: order, desc: fmt.Sprintf("log(t%d,%v)", i, want), mk: func(*branchState, uint64) scriptLog { return scriptLog{spec, &refEvent{}} }}, sides)
 			desc = append(desc, fmt.Sprintf("t%d-log@%d", i, n))
 		}
 	}
@@ -698,7 +704,7 @@ func TestC16_Partitions(t *testing.T) {
 		"SyncStartBlockNumber 0; no fault injection (C15 covers failures)",
 		"the decrypted flag is not exercised (it is written by the key release path, not by the syncer)",
 	)
-	runRapid(t, N(110, 3000), func(rt *rapid.T) { runC16Case(rt, c16Partitions()) })
+	runRapid(t, N(700, 24000), func(rt *rapid.T) { runC16Case(rt, c16Partitions()) })
 }
 
 // TestC16_WitnessF9 replays the minimal case of the open finding F9: a trigger
